@@ -48,9 +48,21 @@ def run(tier, seed):
         mk = rnd.choice(["unit", "diag", "full"])
         if mk == "full":
             m = spd(rnd, d)
-            mass = MM.Full(m.copy())
+            if rnd.random() < 0.25:
+                m = np.round(m * 4) + np.eye(d) * 8 * d    # whole numbers, still positive definite (diagonally dominant)
+                mass = MM.Full(m.astype(np.int64))
+            else:
+                mass = MM.Full(m.copy())
             mstr = f"full {mhex(np.linalg.cholesky(m))}"
             mdesc = {"mass": "full", "matrix": m.tolist()}
+        elif mk == "diag" and rnd.random() < 0.35:
+            # the same mass written down with whole numbers: integer arrays, nested lists of ints
+            diag = np.array([[float(rnd.choice([1, 2, 3, 4, 9]))] for _ in range(d)])
+            enc = rnd.choice(["int64", "int32", "list"])
+            arg = {"int64": diag.astype(np.int64), "int32": diag.astype(np.int32), "float32": diag.astype(np.float32), "list": np.array([[int(v)] for v in diag.ravel()])}[enc]
+            mass = MM.Diagonal(arg)
+            mstr = f"diag {vhex(1.0 / diag)} {vhex(np.sqrt(diag))}"
+            mdesc = {"mass": "diag", "diag": diag.ravel().tolist(), "array_encoding": enc}
         else:
             mass, mstr, mdesc = make_mass(rnd, mk, d)
         z = np.array([[rnd.gauss(0, 1)] for _ in range(d)])
@@ -173,6 +185,11 @@ def run(tier, seed):
                 p = np.array([[rnd.gauss(0, 1)] for _ in range(d)])
                 with quiet(), np.errstate(all="ignore"):
                     bf.kinetic_energy_gradient(p.copy(), m.copy(), g.copy())
+                if np.linalg.cond(public_state()[0]) > 1e8:
+                    # a curvature s.y that happens to be tiny makes the exact BFGS metric nearly singular: identities such as F Fᵀ M⁻¹ = I and the
+                    # comparison with the model then hold only up to cond x eps, which says nothing about the code
+                    sb.count("update left an ill-conditioned metric, cond > 1e8 (history cut)")
+                    break
                 pieces.append(f"U {vhex(m)} {vhex(g)}")
                 ops.append(("update", m.ravel().tolist(), g.ravel().tolist()))
                 pending_update = True
